@@ -24,6 +24,7 @@ SPACES = {
         dict(nv=3, maxl=2, classes=ALL6),
         dict(nv=3, maxl=3, minl=3, classes=("D", "U", "O")),
         dict(nv=2, maxl=6, minl=4, classes=("D",)),                # many links on one vertex
+        dict(nv=2, maxl=4, minl=4, classes=("D", "U", "O")),       # four links of mixed kinds
     ],
     "thorough": [
         dict(nv=3, maxl=3, classes=ALL6),
@@ -35,6 +36,9 @@ SPACES = {
         dict(nv=3, maxl=8, minl=5, classes=("D",), pairs=[(0, 1), (0, 2), (1, 0)]),
     ],
 }
+# deterministic shapes (chains, rings, stars, trees, fans of parallel links, ...) at a ladder of sizes
+SPACES["quick"] += engine_g.family_specs(list(range(4, 13)) + [16, 17])
+SPACES["thorough"] += engine_g.family_specs(list(range(4, 13)) + [16, 17, 32, 33])
 FILTERS = ("none", "accept", "reject", "selv", "sell")
 DUAL_FILTERS = ("none", "accept", "sell")
 
@@ -127,7 +131,7 @@ def per_state(spec, seq, w):
 
 
 def _plain(spec):
-    return {k: (list(v) if isinstance(v, tuple) else v) for k, v in spec.items()}
+    return {k: (list(v) if isinstance(v, tuple) else v) for k, v in spec.items() if k != "explicit"}
 
 
 def replay(rec, verbose=False):
